@@ -420,4 +420,364 @@ Proof.
   eapply runs_eq; [exact H|]. seq.
 Qed.
 
+(* ------------------------------------------------------------------ rule calls *)
+Lemma case_call c r prec mode body i sy o :
+  G r = Some body -> blockP c body i sy o -> blockP c (PCall r prec mode) i sy o.
+Proof.
+  intros HG IH b a k m0 r0 d Hb Hat Ht. cbn [cg] in *.
+  destruct (Hrules r body HG) as [Hfb Hbody].
+  pose proof (at_app_l _ _ _ _ _ Hbody) as HatB. pose proof (at_app_r _ _ _ _ _ Hbody) as HatR.
+  destruct (at_head _ _ _ _ _ Hat) as (x & Hfx & Hr). cbn in Hr.
+  assert (Elen : a + len [TCall r prec mode] = a + 1) by (rewrite len_cons, len_nil; lia).
+  destruct Hr as [->|[-> Hret]].
+  - (* a real call *)
+    assert (T : tail_ok (FCall (a + 1) :: k) (addr r + len (cg body))) by (intros _; exact I).
+    pose proof (IH b (addr r) (FCall (a + 1) :: k) m0 r0 (d + 1)%N Hb HatB T) as O.
+    assert (Start : forall res, runs_to (core (upd_syms sy b) (addr r) i m0 (FCall (a + 1) :: k) r0 (d + 1)) res ->
+                                runs_to (core (upd_syms sy b) a i m0 k r0 d) res).
+    { intros res H. eapply run_instr; [exact (bok _ _ _ Hb)|exact Hfx|apply exec_call|]. eapply runs_eq; [exact H|]. seq. }
+    destruct o as [j t f s1|f s1].
+    + destruct O as (r1 & K1 & R1). exists r1. split; [exact K1|]. intros res H.
+      apply Start, R1.
+      eapply run_instr; [exact (bok _ _ _ Hb)|eapply at_fetch_ti; exact HatR|apply exec_ret|].
+      eapply runs_eq; [exact H|]. rewrite Elen. reflexivity.
+    + destruct O as (junk & a' & i' & c' & R1). exists junk, a', i', c'. intros res H.
+      apply Start, R1. eapply runs_step; [apply step_fail_call|]. exact H.
+  - (* a tail call: jump, and the callee's ret stands in for ours *)
+    assert (Hsafe : ret_safe k) by (apply Ht; rewrite Elen; exact Hret).
+    assert (T : tail_ok k (addr r + len (cg body))) by (intros _; exact Hsafe).
+    pose proof (IH b (addr r) k m0 r0 d Hb HatB T) as O.
+    assert (Start : forall res, runs_to (core (upd_syms sy b) (addr r) i m0 k r0 d) res -> runs_to (core (upd_syms sy b) a i m0 k r0 d) res).
+    { intros res H. eapply run_instr; [exact (bok _ _ _ Hb)|exact Hfx|apply exec_jump|]. eapply runs_eq; [exact H|]. seq. }
+    destruct o as [j t f s1|f s1].
+    + destruct O as (r1 & K1 & R1). exists r1. split; [exact K1|]. intros res H.
+      apply Start, R1. rewrite Elen in H.
+      eapply runs_same_step; [|exact H].
+      rewrite (step_core ucd cb prog (upd_syms s1 b) (a + 1) j (N.max m0 f) k (r0 ++ r1) d IRet) by (try apply (bok s1 _ _ Hb); exact Hret).
+      rewrite (step_core ucd cb prog (upd_syms s1 b) (addr r + len (cg body)) j (N.max m0 f) k (r0 ++ r1) d IRet)
+        by (try apply (bok s1 _ _ Hb); eapply at_fetch_ti; exact HatR).
+      apply exec_ret_any_pc. exact Hsafe.
+    + destruct O as (junk & a' & i' & c' & R1). exists junk, a', i', c'. intros res H.
+      apply Start, R1. exact H.
+Qed.
+
+(* ------------------------------------------------------------------ captures *)
+Lemma case_capture_ok c id pa i sy j t f sy1 :
+  (i <= j)%N -> blockP c pa i sy (SuccE j t f sy1) ->
+  blockP c (PWrap ICaptureStart pa (ICaptureEnd id)) i sy (SuccE j (t ++ [TrCap id i (j - i)]) f sy1).
+Proof.
+  intros Hle IH1 b a k m0 r0 d Hb Hat Ht. cbn [cg] in *.
+  pose proof (at_cons _ _ _ _ _ Hat) as Hat1.
+  pose proof (at_app_l _ _ _ _ _ Hat1) as HatA. pose proof (at_app_r _ _ _ _ _ Hat1) as HatP.
+  set (b' := upd_ci (cic b + 1) (cutf b) (accf b) b).
+  destruct (IH1 b' (a + 1) (FCapture i :: k) m0 r0 d (bokE_ci _ _ _ Hb) HatA) as (r1 & K1 & R1).
+  { eapply tail_ti; [exact HatP|discriminate]. }
+  exists (r1 ++ [{| r_depth := d; r_kind := RCap id i (j - i) |}]). split; [rewrite kinds_app, K1; reflexivity|].
+  intros res H.
+  eapply run_instr; [exact (bok _ _ _ Hb)|eapply at_fetch_ti; exact Hat|apply exec_capture_start|]. apply R1.
+  eapply run_instr; [exact (bok sy1 _ _ (bokE_ci _ _ _ Hb))|eapply at_fetch_ti; exact HatP|
+                     apply (exec_capture_end ucd cb (upd_syms sy1 b)); [apply Hb|apply Hb|exact Hle]|].
+  eapply runs_eq; [exact H|]. seq.
+Qed.
+
+Lemma case_capture_ko c id pa i sy f sy1 :
+  blockP c pa i sy (FailE f sy1) -> blockP c (PWrap ICaptureStart pa (ICaptureEnd id)) i sy (FailE f sy1).
+Proof.
+  intros IH1 b a k m0 r0 d Hb Hat Ht. cbn [cg] in *.
+  pose proof (at_cons _ _ _ _ _ Hat) as Hat1.
+  pose proof (at_app_l _ _ _ _ _ Hat1) as HatA. pose proof (at_app_r _ _ _ _ _ Hat1) as HatP.
+  set (b' := upd_ci (cic b + 1) (cutf b) (accf b) b).
+  destruct (IH1 b' (a + 1) (FCapture i :: k) m0 r0 d (bokE_ci _ _ _ Hb) HatA) as (junk & a' & i' & c' & R1).
+  { eapply tail_ti; [exact HatP|discriminate]. }
+  exists junk, a', i', c'. intros res H.
+  eapply run_instr; [exact (bok _ _ _ Hb)|eapply at_fetch_ti; exact Hat|apply exec_capture_start|]. apply R1.
+  eapply runs_step; [apply (step_fail_capture ucd cb prog (upd_syms sy1 b))|]. exact H.
+Qed.
+
+(* ------------------------------------------------------------------ condition blocks *)
+Lemma bokE_cond c b nm v : base_okE c b -> base_okE (set_cond c nm v) (upd_conds (set_cond c nm v) b).
+Proof.
+  intros (H1 & H2 & H3). split; [exact H1|]. split; [reflexivity|]. apply set_cond_sorted. exact H3.
+Qed.
+
+Lemma case_cond c nm v pa i sy o :
+  blockP (set_cond c nm v) pa i sy o -> blockP c (PWrap (IConditionPush nm v) pa IConditionPop) i sy o.
+Proof.
+  intros IH1 b a k m0 r0 d Hb Hat Ht. cbn [cg] in *.
+  pose proof (at_cons _ _ _ _ _ Hat) as Hat1.
+  pose proof (at_app_l _ _ _ _ _ Hat1) as HatA. pose proof (at_app_r _ _ _ _ _ Hat1) as HatP.
+  pose proof Hb as (Hb0 & Hcb & Hsrt).
+  set (c' := set_cond c nm v).
+  set (b' := upd_conds c' b).
+  assert (T : tail_ok (FCond nm (has_cond c nm) :: k) (a + 1 + len (cg pa))).
+  { eapply tail_ti; [exact HatP|discriminate]. }
+  pose proof (IH1 b' (a + 1) (FCond nm (has_cond c nm) :: k) m0 r0 d (bokE_cond _ _ _ _ Hb) HatA T) as O.
+  assert (Start : forall res, runs_to (core (upd_syms sy b') (a + 1) i m0 (FCond nm (has_cond c nm) :: k) r0 d) res ->
+                              runs_to (core (upd_syms sy b) a i m0 k r0 d) res).
+  { intros res H. eapply run_instr; [exact (bok _ _ _ Hb)|eapply at_fetch_ti; exact Hat|apply exec_cond_push|].
+    eapply runs_eq; [exact H|]. unfold b', c'. rewrite <- Hcb. reflexivity. }
+  assert (Back : set_cond (conds b') nm (has_cond c nm) = conds b).
+  { change (conds b') with (set_cond c nm v). rewrite Hcb. apply set_cond_restore. exact Hsrt. }
+  destruct o as [j t f s1|f s1].
+  - destruct O as (r1 & K1 & R1). exists r1. split; [exact K1|]. intros res H.
+    apply Start, R1.
+    eapply run_instr; [exact (bok s1 _ _ (bokE_cond _ _ _ _ Hb))|eapply at_fetch_ti; exact HatP|apply exec_cond_pop|].
+    change (conds (upd_syms s1 b')) with (conds b'). rewrite Back.
+    eapply runs_eq; [exact H|]. seq.
+  - destruct O as (junk & a' & i' & c2 & R1). exists junk, a', i', c2. intros res H.
+    apply Start, R1.
+    eapply runs_step; [apply step_fail_cond|].
+    change (conds (upd_syms s1 b')) with (conds b'). rewrite Back.
+    eapply runs_eq; [exact H|]. reflexivity.
+Qed.
+
+(* ------------------------------------------------------------------ symbol definitions *)
+Lemma case_symdef_ok c nm pa i sy j t f sy1 :
+  (i <= j)%N -> blockP c pa i sy (SuccE j t f sy1) ->
+  blockP c (PWrap (ISymbolStart nm) pa ISymbolEnd) i sy (SuccE j t f (add_symbol sy1 nm (firstnN (j - i) (skipnN i inp)))).
+Proof.
+  intros Hle IH1 b a k m0 r0 d Hb Hat Ht. cbn [cg] in *.
+  pose proof (at_cons _ _ _ _ _ Hat) as Hat1.
+  pose proof (at_app_l _ _ _ _ _ Hat1) as HatA. pose proof (at_app_r _ _ _ _ _ Hat1) as HatP.
+  destruct (IH1 b (a + 1) (FSymbol nm i :: k) m0 r0 d Hb HatA) as (r1 & K1 & R1).
+  { eapply tail_ti; [exact HatP|discriminate]. }
+  exists r1. split; [exact K1|]. intros res H.
+  eapply run_instr; [exact (bok _ _ _ Hb)|eapply at_fetch_ti; exact Hat|apply exec_symbol_start|]. apply R1.
+  eapply run_instr; [exact (bok sy1 _ _ Hb)|eapply at_fetch_ti; exact HatP|apply exec_symbol_end; exact Hle|].
+  assert (Hbuf : buf (upd_syms sy1 b) = inp) by (apply Hb).
+  rewrite Hbuf. change (syms (upd_syms sy1 b)) with sy1.
+  eapply runs_eq; [exact H|]. seq.
+Qed.
+
+Lemma case_symdef_ko c nm pa i sy f sy1 :
+  blockP c pa i sy (FailE f sy1) -> blockP c (PWrap (ISymbolStart nm) pa ISymbolEnd) i sy (FailE f sy1).
+Proof.
+  intros IH1 b a k m0 r0 d Hb Hat Ht. cbn [cg] in *.
+  pose proof (at_cons _ _ _ _ _ Hat) as Hat1.
+  pose proof (at_app_l _ _ _ _ _ Hat1) as HatA. pose proof (at_app_r _ _ _ _ _ Hat1) as HatP.
+  destruct (IH1 b (a + 1) (FSymbol nm i :: k) m0 r0 d Hb HatA) as (junk & a' & i' & c' & R1).
+  { eapply tail_ti; [exact HatP|discriminate]. }
+  exists junk, a', i', c'. intros res H.
+  eapply run_instr; [exact (bok _ _ _ Hb)|eapply at_fetch_ti; exact Hat|apply exec_symbol_start|]. apply R1.
+  eapply runs_step; [apply step_fail_symbol|]. exact H.
+Qed.
+
+(* ------------------------------------------------------------------ scopes *)
+Lemma case_scope_ok c kind nm pa i sy j t f sy1 :
+  blockP c pa i (scope_enter kind nm sy) (SuccE j t f sy1) ->
+  blockP c (PWrap (ISymbolPush kind nm) pa ISymbolPop) i sy (SuccE j t f sy).
+Proof.
+  intros IH1 b a k m0 r0 d Hb Hat Ht. cbn [cg] in *.
+  pose proof (at_cons _ _ _ _ _ Hat) as Hat1.
+  pose proof (at_app_l _ _ _ _ _ Hat1) as HatA. pose proof (at_app_r _ _ _ _ _ Hat1) as HatP.
+  destruct (IH1 b (a + 1) (FSymtab sy :: k) m0 r0 d Hb HatA) as (r1 & K1 & R1).
+  { eapply tail_ti; [exact HatP|discriminate]. }
+  exists r1. split; [exact K1|]. intros res H.
+  eapply run_instr; [exact (bok _ _ _ Hb)|eapply at_fetch_ti; exact Hat|apply exec_symbol_push|]. apply R1.
+  eapply run_instr; [exact (bok sy1 _ _ Hb)|eapply at_fetch_ti; exact HatP|apply exec_symbol_pop|].
+  eapply runs_eq; [exact H|]. seq.
+Qed.
+
+Lemma case_scope_ko c kind nm pa i sy f sy1 :
+  blockP c pa i (scope_enter kind nm sy) (FailE f sy1) ->
+  blockP c (PWrap (ISymbolPush kind nm) pa ISymbolPop) i sy (FailE f sy).
+Proof.
+  intros IH1 b a k m0 r0 d Hb Hat Ht. cbn [cg] in *.
+  pose proof (at_cons _ _ _ _ _ Hat) as Hat1.
+  pose proof (at_app_l _ _ _ _ _ Hat1) as HatA. pose proof (at_app_r _ _ _ _ _ Hat1) as HatP.
+  destruct (IH1 b (a + 1) (FSymtab sy :: k) m0 r0 d Hb HatA) as (junk & a' & i' & c' & R1).
+  { eapply tail_ti; [exact HatP|discriminate]. }
+  exists junk, a', i', c'. intros res H.
+  eapply run_instr; [exact (bok _ _ _ Hb)|eapply at_fetch_ti; exact Hat|apply exec_symbol_push|]. apply R1.
+  eapply runs_step; [apply step_fail_symtab|]. exact H.
+Qed.
+
+(* ------------------------------------------------------------------ repeat(n, m) *)
+Lemma at_eq a a' c c' : a = a' -> c = c' -> at_ a c -> at_ a' c'.
+Proof. intros <- <- H. exact H. Qed.
+
+Lemma sub_call c pa i sy o :
+  blockP c pa i sy o -> forall b A q off k m0 r0 d, base_okE c b -> at_ (A + 1) (cg pa ++ [TI IRet]) ->
+  fetch prog q = Some (ICall off 0) -> q + 1 + off = A + 1 ->
+  outS o (core (upd_syms sy b) q i m0 k r0 d) b (q + 1) k m0 r0 d.
+Proof.
+  intros IH b A q off k m0 r0 d Hb HatS Hfq Hoff.
+  pose proof (at_app_l _ _ _ _ _ HatS) as HatB. pose proof (at_app_r _ _ _ _ _ HatS) as HatR.
+  assert (T : tail_ok (FCall (q + 1) :: k) (A + 1 + len (cg pa))) by (intros _; exact I).
+  pose proof (IH b (A + 1) (FCall (q + 1) :: k) m0 r0 (d + 1)%N Hb HatB T) as O.
+  assert (Start : forall res, runs_to (core (upd_syms sy b) (A + 1) i m0 (FCall (q + 1) :: k) r0 (d + 1)) res ->
+                              runs_to (core (upd_syms sy b) q i m0 k r0 d) res).
+  { intros res H. eapply run_instr; [exact (bok _ _ _ Hb)|exact Hfq|apply exec_call|]. eapply runs_eq; [exact H|]. seq. }
+  destruct o as [j t f s1|f s1].
+  - destruct O as (r1 & K1 & R1). exists r1. split; [exact K1|]. intros res H.
+    apply Start, R1.
+    eapply run_instr; [exact (bok _ _ _ Hb)|eapply at_fetch_ti; exact HatR|apply exec_ret|]. exact H.
+  - destruct O as (junk & a' & i' & c' & R1). exists junk, a', i', c'. intros res H.
+    apply Start, R1. eapply runs_step; [apply step_fail_call|]. exact H.
+Qed.
+
+Lemma case_rep_done c pa i sy : repP c 0 0 pa i sy (SuccE i [] 0 sy).
+Proof.
+  intros b A cc E k m0 r0 d Hb HatS HatC HE. exists []. split; [reflexivity|]. intros res H.
+  eapply runs_eq; [exact H|]. subst E. seq.
+Qed.
+
+Lemma case_rep_must_ok c n kk pa i sy j t1 f1 sy1 o :
+  blockP c pa i sy (SuccE j t1 f1 sy1) -> repP c n kk pa j sy1 o ->
+  repP c (S n) kk pa i sy (match o with SuccE j' t2 f2 s2 => SuccE j' (t1 ++ t2) (N.max f1 f2) s2 | FailE f2 s2 => FailE (N.max f1 f2) s2 end).
+Proof.
+  intros IH1 IH2 b A cc E k m0 r0 d Hb HatS HatC HE. cbn [rep_calls app] in HatC.
+  destruct (sub_call c pa i sy _ IH1 b A cc (- (cc - A)) k m0 r0 d Hb HatS (at_fetch_ti _ _ _ _ _ HatC)) as (r1 & K1 & R1); [lia|].
+  assert (HatN : at_ (cc + 1) (rep_calls n (cc + 1 - A) ++ rep_opts kk (cc + 1 - A + Z.of_nat n) (E - A))).
+  { eapply at_eq; [reflexivity| |exact (at_cons _ _ _ _ _ HatC)]. f_equal; f_equal; lia. }
+  pose proof (IH2 b A (cc + 1) E k (N.max m0 f1) (r0 ++ r1) d Hb HatS HatN) as O.
+  destruct o as [j' t2 f2 s2|f2 s2].
+  - destruct O as (r2 & K2 & R2); [lia|]. exists (r1 ++ r2). split; [rewrite kinds_app; congruence|]. intros res H.
+    apply R1, R2. eapply runs_eq; [exact H|]. seq.
+  - destruct O as (junk & a' & i' & c' & R2); [lia|]. exists (r1 ++ junk), a', i', c'. intros res H.
+    apply R1, R2. eapply runs_eq; [exact H|]. seq.
+Qed.
+
+Lemma case_rep_must_ko c n kk pa i sy f sy1 : blockP c pa i sy (FailE f sy1) -> repP c (S n) kk pa i sy (FailE f sy1).
+Proof.
+  intros IH1 b A cc E k m0 r0 d Hb HatS HatC HE. cbn [rep_calls app] in HatC.
+  apply (sub_call c pa i sy _ IH1 b A cc (- (cc - A)) k m0 r0 d Hb HatS (at_fetch_ti _ _ _ _ _ HatC)). lia.
+Qed.
+
+Lemma case_rep_opt_ok c kk pa i sy j t1 f1 sy1 j' t2 f2 sy2 :
+  blockP c pa i sy (SuccE j t1 f1 sy1) -> repP c 0 kk pa j sy1 (SuccE j' t2 f2 sy2) ->
+  repP c 0 (S kk) pa i sy (SuccE j' (t1 ++ t2) (N.max f1 f2) sy2).
+Proof.
+  intros IH1 IH2 b A cc E k m0 r0 d Hb HatS HatC HE. cbn [rep_calls rep_opts app Z.of_nat] in HatC.
+  pose proof (at_cons _ _ _ _ _ HatC) as HatC1. pose proof (at_cons _ _ _ _ _ HatC1) as HatC2.
+  pose proof (at_cons _ _ _ _ _ HatC2) as HatC3.
+  set (F := FBack (Some i) (lenN r0) (rid b) (rinh b) (cc + 1 + (E - A - (cc - A + 0) - 1))).
+  destruct (sub_call c pa i sy _ IH1 b A (cc + 1) (- (cc - A + 0 + 1)) (F :: k) m0 r0 d Hb HatS (at_fetch_ti _ _ _ _ _ HatC1))
+    as (r1 & K1 & R1); [lia|].
+  assert (HatN : at_ (cc + 3) (rep_calls 0 (cc + 3 - A) ++ rep_opts kk (cc + 3 - A + Z.of_nat 0) (E - A))).
+  { eapply at_eq; [| |exact HatC3]; [lia|]. cbn [rep_calls app Z.of_nat]. f_equal; lia. }
+  destruct (IH2 b A (cc + 3) E k (N.max m0 f1) (r0 ++ r1) d Hb HatS HatN) as (r2 & K2 & R2); [lia|].
+  exists (r1 ++ r2). split; [rewrite kinds_app; congruence|]. intros res H.
+  eapply run_instr; [exact (bok _ _ _ Hb)|eapply at_fetch_ti; exact HatC|apply exec_choice|]. apply R1.
+  eapply run_instr; [exact (bok _ _ _ Hb)|eapply at_fetch_ti; exact HatC2|apply exec_commit|].
+  eapply runs_eq; [apply R2; eapply runs_eq; [exact H|]; seq|]. seq.
+Qed.
+
+Lemma case_rep_opt_stop c kk pa i sy f sy1 : blockP c pa i sy (FailE f sy1) -> repP c 0 (S kk) pa i sy (SuccE i [] f sy1).
+Proof.
+  intros IH1 b A cc E k m0 r0 d Hb HatS HatC HE. cbn [rep_calls rep_opts app Z.of_nat] in HatC.
+  pose proof (at_cons _ _ _ _ _ HatC) as HatC1.
+  set (F := FBack (Some i) (lenN r0) (rid b) (rinh b) (cc + 1 + (E - A - (cc - A + 0) - 1))).
+  destruct (sub_call c pa i sy _ IH1 b A (cc + 1) (- (cc - A + 0 + 1)) (F :: k) m0 r0 d Hb HatS (at_fetch_ti _ _ _ _ _ HatC1))
+    as (junk & a' & i' & c' & R1); [lia|].
+  exists []. split; [reflexivity|]. intros res H.
+  eapply run_instr; [exact (bok _ _ _ Hb)|eapply at_fetch_ti; exact HatC|apply exec_choice|]. apply R1.
+  eapply runs_step; [apply step_fail_own; apply (bok sy1 _ _ Hb)|].
+  eapply runs_eq; [exact H|]. seq.
+Qed.
+
+Lemma app_cons_assoc {A} (l : list A) x r : l ++ x :: r = (l ++ [x]) ++ r.
+Proof. rewrite <- app_assoc. reflexivity. Qed.
+
+Lemma case_repeat c n m pa i sy o :
+  repP c (N.to_nat n) (N.to_nat m - N.to_nat n) pa i sy o -> blockP c (PRep n m pa) i sy o.
+Proof.
+  intros IH b a k m0 r0 d Hb Hat Ht. cbn [cg] in *.
+  set (nn := N.to_nat n) in *. set (kk := (N.to_nat m - nn)%nat) in *. set (la := len (cg pa)) in *.
+  pose proof (at_cons _ _ _ _ _ Hat) as Hat1. rewrite app_cons_assoc in Hat1.
+  pose proof (at_app_l _ _ _ _ _ Hat1) as HatS. pose proof (at_app_r _ _ _ _ _ Hat1) as HatC.
+  set (cc := a + la + 2). set (E := cc + Z.of_nat nn + 3 * Z.of_nat kk).
+  assert (HatN : at_ cc (rep_calls nn (cc - a) ++ rep_opts kk (cc - a + Z.of_nat nn) (E - a))).
+  { eapply at_eq; [| |exact HatC].
+    - rewrite len_app, len_cons, len_nil. unfold cc, la. lia.
+    - unfold E, cc. f_equal; f_equal; lia. }
+  pose proof (IH b a cc E k m0 r0 d Hb HatS HatN eq_refl) as O.
+  assert (Start : forall res, runs_to (core (upd_syms sy b) cc i m0 k r0 d) res -> runs_to (core (upd_syms sy b) a i m0 k r0 d) res).
+  { intros res H. eapply run_instr; [exact (bok _ _ _ Hb)|eapply at_fetch_ti; exact Hat|apply exec_jump|].
+    eapply runs_eq; [exact H|]. unfold cc. seq. }
+  destruct o as [j t f s1|f s1].
+  - destruct O as (r1 & K1 & R1). exists r1. split; [exact K1|]. intros res H.
+    apply Start, R1. eapply runs_eq; [exact H|]. unfold E, cc, la. seq.
+  - destruct O as (junk & a' & i' & c' & R1). exists junk, a', i', c'. intros res H.
+    apply Start, R1. exact H.
+Qed.
+
+(* ------------------------------------------------------------------ the induction *)
+Definition P (c : list name) (p : pexp) (i : N) (sy : symtab) (o : oute) : Prop :=
+  fragE p = true -> blockP c p i sy o /\ match p with PStar pa => loopP c pa i sy o | _ => True end.
+Definition P0 (c : list name) (n kk : nat) (pa : pexp) (i : N) (sy : symtab) (o : oute) : Prop :=
+  fragE pa = true -> repP c n kk pa i sy o.
+
+Lemma block_all :
+  (forall c p i sy o, pegE c p i sy o -> P c p i sy o) /\
+  (forall c n kk pa i sy o, pegE_rep c n kk pa i sy o -> P0 c n kk pa i sy o).
+Proof.
+  apply (pegE_mutind ucd inp G P P0); unfold P, P0.
+  - (* empty *) intros c i s _. split; [apply case_empty|exact I].
+  - (* term ok *) intros c ins i j s Ht Hm _. split; [apply case_term_ok; assumption|exact I].
+  - (* term ko *) intros c ins i s Ht Hm _. split; [apply case_term_ko; assumption|exact I].
+  - (* action *) intros c id i s _. split; [apply case_action|exact I].
+  - (* when ok *) intros c nm v i s Hc _. split; [apply case_when_ok; exact Hc|exact I].
+  - (* when ko *) intros c nm v i s Hc _. split; [apply case_when_ko; exact Hc|exact I].
+  - (* exists ok *) intros c nm v i s Hc _. split; [apply case_exists_ok; exact Hc|exact I].
+  - (* exists ko *) intros c nm v i s Hc _. split; [apply case_exists_ko; exact Hc|exact I].
+  - (* symmatch ok *) intros c k nm idx i j s Hm _. split; [apply case_symmatch_ok; exact Hm|exact I].
+  - (* symmatch ko *) intros c k nm idx i s Hm _. split; [apply case_symmatch_ko; exact Hm|exact I].
+  - (* seq ok *) intros c pa pb i j t1 f1 s s1 j' t2 f2 s2 _ IH1 _ IH2 Hf. cbn [fragE] in Hf. apply andb_prop in Hf as [Hfa Hfb].
+    split; [|exact I]. apply case_seq_ok with (j := j) (sy1 := s1); [exact Hfb|exact (proj1 (IH1 Hfa))|exact (proj1 (IH2 Hfb))].
+  - (* seq ko2 *) intros c pa pb i j t1 f1 s s1 f2 s2 _ IH1 _ IH2 Hf. cbn [fragE] in Hf. apply andb_prop in Hf as [Hfa Hfb].
+    split; [|exact I]. eapply case_seq_ko2; [exact Hfb|exact (proj1 (IH1 Hfa))|exact (proj1 (IH2 Hfb))].
+  - (* seq ko1 *) intros c pa pb i s f1 s1 _ IH1 Hf. cbn [fragE] in Hf. apply andb_prop in Hf as [Hfa Hfb].
+    split; [|exact I]. apply case_seq_ko1; [exact Hfb|exact (proj1 (IH1 Hfa))].
+  - (* alt l *) intros c pa pb i s j t f s1 _ IH1 Hf. cbn [fragE] in Hf. apply andb_prop in Hf as [Hfa Hfb].
+    split; [|exact I]. apply case_alt_l. exact (proj1 (IH1 Hfa)).
+  - (* alt r ok *) intros c pa pb i s f1 s1 j t f2 s2 _ IH1 _ IH2 Hf. cbn [fragE] in Hf. apply andb_prop in Hf as [Hfa Hfb].
+    split; [|exact I]. exact (case_alt_r c pa pb i s f1 s1 (SuccE j t f2 s2) (proj1 (IH1 Hfa)) (proj1 (IH2 Hfb))).
+  - (* alt r ko *) intros c pa pb i s f1 s1 f2 s2 _ IH1 _ IH2 Hf. cbn [fragE] in Hf. apply andb_prop in Hf as [Hfa Hfb].
+    split; [|exact I]. exact (case_alt_r c pa pb i s f1 s1 (FailE f2 s2) (proj1 (IH1 Hfa)) (proj1 (IH2 Hfb))).
+  - (* star more *) intros c pa i s j t1 f1 s1 j' t2 f2 s2 _ IH1 _ IH2 Hf. cbn [fragE] in Hf.
+    pose proof (case_star_more_loop c pa i s j t1 f1 s1 j' t2 f2 s2 (proj1 (IH1 Hf)) (proj2 (IH2 Hf))) as L.
+    split; [apply star_block|]; exact L.
+  - (* star done *) intros c pa i s f s1 _ IH1 Hf. cbn [fragE] in Hf.
+    pose proof (case_star_done_loop c pa i s f s1 (proj1 (IH1 Hf))) as L.
+    split; [apply star_block|]; exact L.
+  - (* not ok *) intros c pa i s f s1 _ IH1 Hf. cbn [fragE] in Hf. split; [|exact I]. apply case_not_ok. exact (proj1 (IH1 Hf)).
+  - (* not ko *) intros c pa i s j t f s1 _ IH1 Hf. cbn [fragE] in Hf. split; [|exact I]. apply case_not_ko with (t := t) (j := j). exact (proj1 (IH1 Hf)).
+  - (* and ok *) intros c pa i s j t f s1 _ IH1 Hf. cbn [fragE] in Hf. split; [|exact I]. apply case_and_ok with (j := j). exact (proj1 (IH1 Hf)).
+  - (* and ko *) intros c pa i s f s1 _ IH1 Hf. cbn [fragE] in Hf. split; [|exact I]. apply case_and_ko. exact (proj1 (IH1 Hf)).
+  - (* eoi ok *) intros c i s Hm _. split; [apply case_eoi_ok; exact Hm|exact I].
+  - (* eoi ko *) intros c i j s Hm _. split; [apply case_eoi_ko; exact Hm|exact I].
+  - (* repeat *) intros c n m pa i s o _ IH Hf. cbn [fragE] in Hf. split; [|exact I]. apply case_repeat. exact (IH Hf).
+  - (* call *) intros c r prec mode body i s o HG _ IH Hf. destruct (Hrules r body HG) as [Hfb _].
+    split; [|exact I]. eapply case_call; [exact HG|exact (proj1 (IH Hfb))].
+  - (* inline *) intros c r body i s o _ IH Hf. cbn [fragE] in Hf. split; [exact (proj1 (IH Hf))|exact I].
+  - (* skip *) intros c sp i s o _ IH Hf. cbn [fragE] in Hf. split; [exact (proj1 (IH Hf))|exact I].
+  - (* capture ok *) intros c id pa i s j t f s1 Hpeg IH Hf. cbn [fragE] in Hf. split; [|exact I].
+    apply case_capture_ok; [exact (proj1 (pegE_mono ucd inp G) _ _ _ _ _ Hpeg)|exact (proj1 (IH Hf))].
+  - (* capture ko *) intros c id pa i s f s1 _ IH Hf. cbn [fragE] in Hf. split; [|exact I].
+    apply case_capture_ko. exact (proj1 (IH Hf)).
+  - (* condition block *) intros c nm v pa i s o _ IH Hf. cbn [fragE] in Hf. split; [|exact I].
+    apply case_cond. exact (proj1 (IH Hf)).
+  - (* symdef ok *) intros c nm pa i s j t f s1 Hpeg IH Hf. cbn [fragE] in Hf. split; [|exact I].
+    apply case_symdef_ok; [exact (proj1 (pegE_mono ucd inp G) _ _ _ _ _ Hpeg)|exact (proj1 (IH Hf))].
+  - (* symdef ko *) intros c nm pa i s f s1 _ IH Hf. cbn [fragE] in Hf. split; [|exact I].
+    apply case_symdef_ko. exact (proj1 (IH Hf)).
+  - (* scope ok *) intros c kind nm pa i s j t f s1 _ IH Hf. cbn [fragE] in Hf. apply andb_prop in Hf as [Hf _]. split; [|exact I].
+    eapply case_scope_ok. exact (proj1 (IH Hf)).
+  - (* scope ko *) intros c kind nm pa i s f s1 _ IH Hf. cbn [fragE] in Hf. apply andb_prop in Hf as [Hf _]. split; [|exact I].
+    eapply case_scope_ko. exact (proj1 (IH Hf)).
+  - (* rep done *) intros c pa i s _. apply case_rep_done.
+  - (* rep must ok *) intros c n kk pa i s j t1 f1 s1 o _ IH1 _ IH2 Hf. apply case_rep_must_ok with (j := j) (sy1 := s1); [exact (proj1 (IH1 Hf))|exact (IH2 Hf)].
+  - (* rep must ko *) intros c n kk pa i s f s1 _ IH1 Hf. apply case_rep_must_ko. exact (proj1 (IH1 Hf)).
+  - (* rep opt ok *) intros c kk pa i s j t1 f1 s1 j' t2 f2 s2 _ IH1 _ IH2 Hf. eapply case_rep_opt_ok; [exact (proj1 (IH1 Hf))|exact (IH2 Hf)].
+  - (* rep opt stop *) intros c kk pa i s f s1 _ IH1 Hf. apply case_rep_opt_stop. exact (proj1 (IH1 Hf)).
+Qed.
+
 End Block.
+
+Theorem block_env : stmt_block_env.
+Proof.
+  intros ucd cb prog addr inp G Htot Hrules cnd p i sy o Hpeg Hfrag b a k m0 r0 d Hb Hat Ht.
+  pose proof (proj1 (proj1 (block_all ucd cb prog addr inp G Htot Hrules) cnd p i sy o Hpeg Hfrag) b a k m0 r0 d Hb Hat Ht) as O.
+  destruct o as [j t f s1|f s1]; exact O.
+Qed.
